@@ -31,7 +31,7 @@ static char *vp_region; static int vp_mmap_mode; static int vp_mmaps, vp_munmaps
  * back as an unknown for symex; as a typed field it stays the same expression) */
 struct vp_hdr { uint32_t header_version; uint32_t header_length; uint64_t mmap_address; uint64_t mmap_length; };
 static struct vp_hdr vp_file; static int vp_components;
-static int vp_lseek_fail, vp_write_short, vp_trunc_fail; static off_t vp_lseek_off, vp_trunc_len;
+static int vp_clobbered; static int vp_lseek_fail, vp_write_short, vp_trunc_fail; static off_t vp_lseek_off, vp_trunc_len;
 #ifdef VP_CBMC
 #define OSFN(n) n
 /* MAP_FAILED is (void *) -1: symex cannot decide "address of an object == integer cast to a pointer", so every mmap result
@@ -56,7 +56,10 @@ ssize_t OSFN(write)(int fd, const void *buf, size_t n) { (void) fd; if (n == siz
 ssize_t OSFN(read)(int fd, void *buf, size_t n) { (void) fd; if (n == sizeof vp_file) *(struct vp_hdr *) buf = vp_file; return (ssize_t) n; }
 int OSFN(ftruncate)(int fd, off_t len) { (void) fd; vp_trunc_len = len; return vp_trunc_fail ? -1 : 0; }
 void *OSFN(mmap)(void *addr, size_t len, int prot, int fl, int fd, off_t off)
-{ (void) prot; (void) fl; (void) fd; (void) off; (void) len; (void) addr; vp_mmaps++; return vp_mmap_mode == 0 ? (void *) vp_region : vp_mmap_mode == 1 ? (void *) vp_other : MAP_FAILED; }
+{ (void) prot; (void) fd; (void) off; (void) len; vp_mmaps++;
+  /* MAP_FIXED: the kernel maps at the requested address whatever was there (and destroys it): "placed elsewhere" cannot happen */
+  if ((fl & MAP_FIXED) && vp_mmap_mode == 1) { vp_clobbered++; return addr; }
+  return vp_mmap_mode == 0 ? (void *) vp_region : vp_mmap_mode == 1 ? (void *) vp_other : MAP_FAILED; }
 int OSFN(munmap)(void *addr, size_t len) { vp_munmaps++; vp_unmapped = addr; vp_unmapped_len = len; return 0; }
 
 /* ---- library environment: recorders ---------------------------------------------------------------------------- */
@@ -149,6 +152,7 @@ VP_HARNESS(h_write)
   VP_CHECK(vp_ndist >= 1 && vp_dist_refreshed[vp_ndist - 1] == vp_dup_result, "write: distances of the STORED copy are refreshed after duplication");
   VP_CHECK(vp_nmem >= 1 && vp_mem_refreshed[vp_nmem - 1] == vp_dup_result, "write: memory attributes of the STORED copy are refreshed after duplication (adopters cannot refresh a read-only mapping)");
   VP_CHECK(vp_munmaps == 1 && vp_unmapped == (void *) vp_region && vp_unmapped_len == len, "write: the writer's mapping is released once");
+  VP_CHECK(vp_clobbered == 0, "write never maps over an address range that is already in use (no MAP_FIXED)");
   VP_CHECK(vp_components == comp_before, "write: component reference count balanced");
   VP_WITNESS_IF(vp_nreq == NREQ && vp_req[1] == 13 && fileoffset == 8192, "a successful write of NREQ blocks with an odd request size at a non-zero file offset");
 }
@@ -192,6 +196,7 @@ VP_HARNESS(h_adopt)
   else if (vp_mmap_mode == 1) VP_CHECK(r == -1 && errno == EBUSY && vp_munmaps == 1 && vp_unmapped == (void *) vp_other && a == (void *) 1, "adopt: an unavailable address range -> EBUSY and the stray mapping is released");
   else if (abi != HWLOC_TOPOLOGY_ABI) VP_CHECK(r == -1 && errno == EINVAL && vp_munmaps == 1 && vp_components == 0 && a == (void *) 1, "adopt: incompatible ABI -> EINVAL, mapping released");
   else VP_CHECK(r == 0 && a != NULL && a != (void *) 1 && a != &st->topo && vp_components == 1, "adopt succeeds with a private topology structure");
+  VP_CHECK(vp_clobbered == 0, "adopt never maps over an address range that is already in use (no MAP_FIXED)");
   VP_WITNESS_IF(r == 0, "a matching header adopted");
   VP_WITNESS_IF(r == -1 && errno == EBUSY, "address range unavailable");
   VP_WITNESS_IF(r == -1 && hdr_ok && !flags && vp_mmap_mode == 0, "ABI mismatch");
